@@ -81,6 +81,7 @@ ASSUMPTIONS = [
     'title/description/href strings are sequences of Unicode scalar values (a lone surrogate cannot be encoded as UTF-8 JSON: falcon raises UnicodeEncodeError to the server); '
     'when the client prefers XML they are additionally XML-1.0 characters without carriage return (other characters are not representable in XML 1.0 at all)',
     'header values of HTTPError/HTTPStatus are ASCII and header names are not repeated (set_headers semantics; header well-formedness is C05)',
+    'part (e): HTTPStatus and the redirects take headers as a dict (as documented), HTTPError classes as a dict or a list of pairs; an explicit Location item in the headers of a redirect is not generated',
     'an error handler that itself raises something other than HTTPError/HTTPStatus is outside the statement: the oracle accepts both "propagates to the server" and "500"',
     'the Accept header is ASCII and its q values have at most four decimals and no exponent (the fragment of the negotiation MODEL only; the oracles also judge headers with obs-text octets 0x80-0xFF: '
     'never escapes, status, headers, Vary, faithful body; which type is chosen is judged when the octets sit in members that cannot change what the client accepts)',
@@ -93,7 +94,15 @@ ASSUMPTIONS = [
     'media handler objects are truthy and none is registered under the literal key "*/*" (needed only by Es.serialize_xml_type and the second half of Es.serialize_typeOnly_only)',
     'Accept headers come from a well-formed grammar of up to 3 media ranges with q in {absent, 0, 0.1, 0.5, 0.9, 1}, in any letter case (see above)',
 ]
-RULE = ('[three dimensions added after seeds C04_10 / C04_11 / C04_12 - the state of the RESPONSE before the raise and the OCTETS of the request headers: '
+RULE = ('[dimension added after seed C04_15 - part (e): THE SAME CLASS RAISED MORE THAN ONCE IN ONE PROCESS. Inventory: every public class of falcon.errors / falcon.redirects / falcon.http_status / falcon.http_error that is '
+        'rendered as a response (47 on the unchanged tree: HTTPError + 41 subclasses incl. the Media* / Multipart errors and the deprecated alias HTTPPayloadTooLarge, HTTPStatus, the five redirects), its constructor parameters read from the signature. '
+        'Per class sequences of 3-7 constructor calls (even rounds: bare, bare, full, bare, random, random, the first call again; odd rounds: random): `bare` = required arguments only - every optional one LEFT OUT -, `full` = every optional one given, '
+        'required arguments (location, allowed_methods, resource_length, msg, header_name, param_name, media_type, status) always other than in the previous call, optional ones (title, description, headers as a fresh dict / list, challenges, retry_after, code, href, '
+        'href_text, text) from pools of 3-6 values; positional or by keyword. Judged per call: (1) the OBJECT (status_code, headers incl. the header the documentation derives from an argument - Location, Allow, WWW-Authenticate, Retry-After, Content-Range -, title, '
+        'description, code, link, text, to_dict()) equals what the arguments of this very call say (class -> status table written from the HTTP registry); (2) instances made earlier are unchanged; (3) a fresh instance raised through an app (WSGI / ASGI; responder, '
+        'process_request, process_resource, sink, before / after hook, process_response, or raised BY AN ERROR HANDLER): status, every header of this raise and none of an earlier one (Location / Allow / Retry-After / WWW-Authenticate / Content-Range / X-*), JSON body fields '
+        'or text; the response is also put to Es.composeStatus / Es.composeError with the arguments of THIS call as the model input. A headers dict OF THE APPLICATION passed to 2-4 constructions (same class with other arguments, another class in between) is judged strictly: every object carries the headers of its own call only and the dict is left as the application made it (this found that the constructors wrote Location / Allow / Retry-After / WWW-Authenticate / Content-Range into the dict of the caller, so a reused dict carried the first Location into every later redirect; repaired in /repo 085c52d, F49)] '
+        '[three dimensions added after seeds C04_10 / C04_11 / C04_12 - the state of the RESPONSE before the raise and the OCTETS of the request headers: '
         '(i) a Vary value that looks like the one the serializer manages, in parts (c) and (d): 22 member lists (Accept-Encoding / -Language / -Charset / -CH / -Datetime, X-Accept-Version, '
         'Not-Acceptable, Acceptx, xAccept, other case, Accept itself in three cases, lists mixing them with Origin / Cookie) put on the response by a process_request middleware, by the code at the raise '
         'site right before raising, or carried by the raised HTTPError / HTTPStatus itself, through set_header / resp.vary / append_header; raise site `noroute` (the framework\'s own 404 behind a '
@@ -137,7 +146,8 @@ PARTIAL = ('Proved in Lean: handler resolution (nearest class in the MRO, latest
            'defines is sent whatever the stale stream, an emitter set before the raise or assigned by a handler that then raises is discarded, Eb). NOT proved: that every raise window of App.__call__ is '
            'wrapped (checked by the raise-site generator + oracle, and by C03\'s pipeline correspondence); the faithfulness of the JSON/XML/media-handler encoders and of uri.encode for the link '
            '(checked by parsing the emitted body with the standard library and comparing every field); Response header emission after composition (C05); the negotiation model is restricted to '
-           'ASCII Accept headers with q values of at most four decimals (other inputs answer "unsupported").')
+           'ASCII Accept headers with q values of at most four decimals (other inputs answer "unsupported"). The constructors of the individual error / redirect classes (which arguments become which '
+           'header, that no state is carried between instances) are not modelled: part (e) judges every public class with an oracle written from the documentation and puts the composed response to Es.composeStatus / Es.composeError.')
 JOBS = {'quick': 12, 'thorough': 16}
 
 D_EXC, D_HTTP, D_STATUS = 9001, 9002, 9003
@@ -155,6 +165,7 @@ def run(ctx):
     _sites(ctx)
     _serialization(ctx)
     _direct(ctx)
+    _repeated(ctx)
 
 
 # ------------------------------------------------------------------ helpers shared by the three parts
@@ -1391,6 +1402,356 @@ def _serialization(ctx):
             ctx.count(f'c_hostile_object_{kind}_{stack}')
         ctx.count('c_expected_' + '|'.join(str(a) for a in allowed))
     sess.finish()
+
+
+# ------------------------------------------------------------------ (e) the same class raised more than once in one process
+
+# the status of every error / redirect class that does not take it as an argument (written down from the HTTP registry, not read off falcon)
+CLASS_STATUS = {
+    'HTTPBadRequest': 400, 'HTTPUnauthorized': 401, 'HTTPForbidden': 403, 'HTTPNotFound': 404, 'HTTPRouteNotFound': 404, 'HTTPMethodNotAllowed': 405,
+    'HTTPNotAcceptable': 406, 'HTTPConflict': 409, 'HTTPGone': 410, 'HTTPLengthRequired': 411, 'HTTPPreconditionFailed': 412, 'HTTPContentTooLarge': 413,
+    'HTTPPayloadTooLarge': 413, 'HTTPUriTooLong': 414, 'HTTPUnsupportedMediaType': 415, 'HTTPRangeNotSatisfiable': 416, 'HTTPUnprocessableEntity': 422,
+    'HTTPLocked': 423, 'HTTPFailedDependency': 424, 'HTTPPreconditionRequired': 428, 'HTTPTooManyRequests': 429, 'HTTPRequestHeaderFieldsTooLarge': 431,
+    'HTTPUnavailableForLegalReasons': 451, 'HTTPInternalServerError': 500, 'HTTPNotImplemented': 501, 'HTTPBadGateway': 502, 'HTTPServiceUnavailable': 503,
+    'HTTPGatewayTimeout': 504, 'HTTPVersionNotSupported': 505, 'HTTPInsufficientStorage': 507, 'HTTPLoopDetected': 508, 'HTTPNetworkAuthenticationRequired': 511,
+    'HTTPInvalidHeader': 400, 'HTTPMissingHeader': 400, 'HTTPInvalidParam': 400, 'HTTPMissingParam': 400, 'MediaNotFoundError': 400, 'MediaMalformedError': 400,
+    'MediaValidationError': 400, 'MultipartParseError': 400,
+    'HTTPMovedPermanently': 301, 'HTTPFound': 302, 'HTTPSeeOther': 303, 'HTTPTemporaryRedirect': 307, 'HTTPPermanentRedirect': 308,
+}
+# constructor arguments that the documentation turns into a response header: argument -> (header, rendering)
+DERIVED_HEADER = {'location': ('location', lambda v: v), 'allowed_methods': ('allow', lambda v: ', '.join(v)), 'challenges': ('www-authenticate', lambda v: ', '.join(v)),
+                  'retry_after': ('retry-after', lambda v: str(v)), 'resource_length': ('content-range', lambda v: 'bytes */%d' % v)}
+ARG_POOL = {
+    'location': ['/first', '/second?next=%2Fa', 'http://example.com/third', '/fourth/x', '/login?next=/private/a', '/'],
+    'allowed_methods': [['GET'], ['PUT', 'DELETE'], ['GET', 'HEAD', 'OPTIONS'], ['PATCH']],
+    'resource_length': [100, 7, 123456, 1],
+    'msg': ['bad value', 'must be an integer', 'too long'], 'header_name': ['X-Auth', 'X-Other', 'If-Match'], 'param_name': ['limit', 'offset', 'q'],
+    'media_type': ['JSON', 'MessagePack', 'URL-encoded form'],
+    'challenges': [['Basic realm="a"'], ['Bearer', 'Token realm="x"'], ['Digest realm="d"']],
+    'retry_after': [30, 120, 1, 86400],
+    'title': ['First title', 'Second', 'Tétle 3'], 'description': ['first description', 'another one', 'd3'],
+    'headers': [{'X-First': '1'}, {'X-Second': 'b', 'X-Third': 'c'}, [('X-List', 'l')], {'X-Request-Id': 'r-77'}, {}],
+    'code': [7, 42, 1000], 'href': ['http://example.com/doc/1', '/doc 2', 'http://example.com/é'], 'href_text': ['read this', 'docs'],
+    'text': ['first text', 'second', 'téxt'],
+    'status:error': [400, 418, '503 Service Unavailable', 599, 409], 'status:status': [200, 201, '202 Accepted', 299, 301],
+}
+
+
+def _rep_inventory():
+    """every public exception class of falcon.errors / falcon.redirects / falcon.http_status / falcon.http_error that is rendered as a response
+    (HTTPError / HTTPStatus and subclasses) with the parameters of its constructor: [(name, class, [(param, required, keyword_only)], takes **kwargs)]"""
+    import inspect
+    import falcon
+    import falcon.errors
+    import falcon.http_error
+    import falcon.http_status
+    import falcon.redirects
+    out = []
+    for mod in (falcon.errors, falcon.redirects, falcon.http_status, falcon.http_error):
+        for n, c in sorted(vars(mod).items()):
+            if not (isinstance(c, type) and c.__module__ == mod.__name__ and not n.startswith('_') and issubclass(c, (falcon.HTTPError, falcon.HTTPStatus))):
+                continue
+            for b in c.__mro__:                       # the first initializer in the MRO that spells its parameters out (an alias forwards *args, **kwargs)
+                f = b.__dict__.get('__init__')
+                if f is None:
+                    continue
+                ps = list(inspect.signature(f).parameters.values())[1:]
+                named = [(q.name, q.default is q.empty, q.kind == q.KEYWORD_ONLY) for q in ps if q.kind in (q.POSITIONAL_OR_KEYWORD, q.KEYWORD_ONLY)]
+                if named:
+                    out.append((n, c, named, any(q.kind == q.VAR_KEYWORD for q in ps)))
+                    break
+    return out
+
+
+def _rep_values(rnd, name, cls, params, var_kw, variant, avoid):
+    """the arguments of one constructor call as the application writes it: {param: value}; `variant`: bare (required arguments only), full (every
+    optional one given), random; `avoid`: the values of the previous call of this class (required arguments get another value)"""
+    import falcon
+    fam = 'error' if issubclass(cls, falcon.HTTPError) else 'status'
+    names = [(q, req) for q, req, _ in params]
+    if var_kw and fam == 'error':
+        names += [(q, False) for q in ('href', 'href_text', 'code') if q not in [x for x, _ in names]]
+    given = {}
+    for q, req in names:
+        pool = ARG_POOL.get('status:' + fam if q == 'status' else q)
+        if pool is None:
+            if req:
+                return None             # a required argument this harness has no values for: the class is reported in the notes
+            continue
+        if req or variant == 'full' or (variant == 'random' and rnd.random() < 0.5):
+            cands = [v for v in pool if v != avoid.get(q)] or pool
+            if q == 'headers' and fam == 'status':
+                cands = [v for v in cands if isinstance(v, dict)] or [{}]      # HTTPStatus and the redirects document `headers (dict)`; HTTPError `dict or list`
+            v = rnd.choice(cands)
+            given[q] = (dict(v) if isinstance(v, dict) else list(v)) if isinstance(v, (dict, list)) else v      # a FRESH object per call
+    if 'href_text' in given and 'href' not in given:
+        del given['href_text']
+    return given
+
+
+def _rep_expect(name, cls, params, given):
+    """what the constructor arguments say (the statement: an HTTP error produces ITS OWN status and headers and title/description/code/link,
+    an HTTP status ITS status/headers/text) - a function of the arguments of this very call, nothing else"""
+    import falcon
+    pn = [q for q, _, _ in params]
+    exp = {}
+    if 'status' in given:
+        exp['status_code'] = int(falcon.code_to_http_status(given['status'])[:3])
+    elif name in CLASS_STATUS:
+        exp['status_code'] = CLASS_STATUS[name]
+    hd = {k.lower(): v for k, v in dict(given.get('headers') or {}).items()}
+    for q, (hn, f) in DERIVED_HEADER.items():
+        if given.get(q) is not None:
+            hd[hn] = f(given[q])
+    exp['headers'] = hd
+    if issubclass(cls, falcon.HTTPError):
+        if given.get('title'):
+            exp['title'] = given['title']
+        elif 'title' in pn and 'status_code' in exp:
+            exp['title_prefix'] = '%d ' % exp['status_code']          # the status line
+        if 'description' in pn:
+            exp['description'] = given.get('description')
+        exp['code'] = given.get('code')
+        exp['link'] = {'text': given.get('href_text') or LINK_DEFAULT, 'href': _rfc3986_encode(given['href']), 'rel': 'help'} if given.get('href') else None
+    elif 'text' in pn:
+        exp['text'] = given.get('text')
+    return exp
+
+
+def _rep_observe(e):
+    import copy
+    import falcon
+    o = {'status_code': e.status_code, 'headers': {k.lower(): v for k, v in dict(e.headers or {}).items()}}
+    if isinstance(e, falcon.HTTPError):
+        o.update(title=e.title, description=e.description, code=e.code, link=copy.deepcopy(e.link), to_dict=copy.deepcopy(e.to_dict()))
+    else:
+        o.update(text=e.text)
+    return o
+
+
+def _rep_compare(exp, o):
+    for k, v in exp.items():
+        if k == 'title_prefix':
+            if not str(o.get('title')).startswith(v):
+                return f'title {o.get("title")!r} (no title given: the status line {v}... expected)'
+        elif o.get(k) != v:
+            return f'{k} is {o.get(k)!r}; by the arguments of this call it is {v!r}'
+    if 'to_dict' in o:
+        d = o['to_dict']
+        want = {k: o[k] for k in ('title', 'description', 'code', 'link') if o[k] is not None or k == 'title'}
+        if dict(d) != want:
+            return f'to_dict() {d!r} differs from the attributes {want!r}'
+    return None
+
+
+def _repeated(ctx):
+    """THE SAME CLASS RAISED MORE THAN ONCE IN ONE PROCESS: every public HTTPError / HTTPStatus class (redirects included), constructed and raised
+    several times with different arguments and with optional arguments left out; each object / response must be what the arguments of ITS OWN
+    constructor call say - no state carried on the class, in default arguments or between instances."""
+    import falcon
+    import falcon.asgi
+    import warnings
+    rnd = ctx.rng
+    inv = _rep_inventory()
+    name_obj = ('an error / redirect / status object is what the arguments of its own constructor call say (status, headers incl. Location / Allow / Retry-After / '
+                'WWW-Authenticate / Content-Range, title, description, code, link, text, to_dict()), however often and with whatever arguments the class was instantiated before')
+    name_keep = 'constructing further instances of a class does not change an instance that exists already'
+    name_resp = ('raised again (same class, other arguments / arguments left out), the response is the status, headers and body of THIS raise: '
+                 'nothing of an earlier raise of the class shows')
+    sess = ctx.session('the response composed for a raised HTTPStatus / redirect / HTTPError whose class was raised before with other arguments (WSGI+ASGI; model input = the arguments of THIS '
+                       'call) = Es.composeStatus / Es.composeError', 'esdriver')
+    skipped = set()
+    SITES_E = ['responder', 'responder', 'req', 'rsrc', 'sink', 'before', 'after', 'resp', 'handler', 'handler']
+    for round_ in range(ctx.n(24, 300)):
+        order = list(inv)
+        rnd.shuffle(order)
+        for name, cls, params, var_kw in order:
+            plan = ['bare', 'bare', 'full', 'bare', 'random', 'random', 'bare'] if round_ % 2 == 0 else [rnd.choice(['bare', 'random', 'full']) for _ in range(rnd.randint(3, 6))]
+            made = []
+            prev = {}
+            first_bare = None
+            for step, variant in enumerate(plan):
+                if step == len(plan) - 1 and first_bare is not None and round_ % 2 == 0:
+                    given = {k: (dict(v) if isinstance(v, dict) else list(v) if isinstance(v, list) else v) for k, v in first_bare.items()}     # the very first call once more
+                else:
+                    given = _rep_values(rnd, name, cls, params, var_kw, variant, prev)
+                if given is None:
+                    skipped.add(name)
+                    break
+                if first_bare is None and variant == 'bare':
+                    first_bare = dict(given)
+                prev = given
+                req_pos = [q for q, req, kwo in params if req and not kwo and q in given]
+                as_pos = req_pos if rnd.random() < 0.7 else []
+
+                def make(given=given, as_pos=as_pos):
+                    kw = {k: (dict(v) if isinstance(v, dict) else list(v) if isinstance(v, list) else v) for k, v in given.items() if k not in as_pos}
+                    with warnings.catch_warnings():
+                        warnings.simplefilter('ignore')          # deprecated aliases are still public
+                        return cls(*[given[q] for q in as_pos], **kw)
+                exp = _rep_expect(name, cls, params, given)
+                shown = {k: v for k, v in given.items()}
+                case = {'class': name, 'call': f'{name}(' + ', '.join([repr(given[q]) for q in as_pos] + [f'{k}={v!r}' for k, v in shown.items() if k not in as_pos]) + ')',
+                        'nth_instance_of_the_class_in_this_sequence': step + 1,
+                        'earlier_calls_of_the_class_in_this_sequence': [c_ for c_, _, _ in made]}
+                # ---- the object
+                try:
+                    e = make()
+                    o = _rep_observe(e)
+                    what = _rep_compare(exp, o)
+                except Exception as ex:  # noqa
+                    e, o, what = None, None, f'the constructor raised {ex!r}'
+                ctx.oracle(name_obj, what is None, what, case)
+                if e is not None:
+                    made.append((case['call'], e, o))
+                # ---- earlier instances are untouched
+                for c_, e_, o_ in made[:-1]:
+                    now = _rep_observe(e_)
+                    if now != o_:
+                        diff = {k: (o_[k], now[k]) for k in o_ if now.get(k) != o_[k]}
+                        ctx.oracle(name_keep, False, f'the instance made by {c_} changed when {case["call"]} was evaluated: (before, after) = {diff!r}', case)
+                        break
+                else:
+                    ctx.oracle(name_keep, True, None, case)
+                # ---- raised through an app (a fresh instance is constructed at the raise site, as applications do)
+                stack = rnd.choice(['wsgi', 'asgi'])
+                asgi = stack == 'asgi'
+                site = rnd.choice(SITES_E)
+                app_cls = falcon.asgi.App if asgi else falcon.App
+
+                class AppErr(Exception):
+                    pass
+
+                def raiser(resp, site=site, make=make):
+                    if site == 'handler':
+                        raise AppErr('to the handler')
+                    raise make()
+                app = _install(app_cls, asgi, 'responder' if site == 'handler' else site, raiser)
+                if site == 'handler':
+                    # "an HTTP error or HTTP status raised by that handler is rendered in turn"
+                    if asgi:
+                        async def h(req, resp, ex, params, make=make): raise make()
+                    else:
+                        def h(req, resp, ex, params, make=make): raise make()
+                    app.add_error_handler(AppErr, h)
+                r = _call(app, stack, via_testing=(step == 1 and round_ % 8 == 0))
+                rcase = dict(case, stack=stack, site=site)
+                what = None
+                is_err = issubclass(cls, falcon.HTTPError)
+                if r.escaped is not None:
+                    what = f'exception escaped to the server: {r.escaped!r}'
+                elif 'status_code' in exp and r.status != exp['status_code']:
+                    what = f'status {r.status}, expected {exp["status_code"]}'
+                else:
+                    for k, v in exp['headers'].items():
+                        if r.header(k) != [v]:
+                            what = f'header {k}: {r.header(k)} in the response; the arguments of this raise say {v!r}'
+                            break
+                    for hn in ('location', 'allow', 'retry-after', 'www-authenticate', 'content-range'):
+                        if what is None and hn not in exp['headers'] and r.header(hn):
+                            what = f'header {hn}: {r.header(hn)} in the response although this raise defines none'
+                    for k, _ in r.headers:
+                        if what is None and k.lower().startswith('x-') and k.lower() not in exp['headers']:
+                            what = f'header {k}: {r.header(k)} in the response although this raise did not pass it'
+                if what is None and is_err:
+                    doc = _json_or_none(r.body)
+                    if not isinstance(doc, dict):
+                        what = f'body {r.body[:80]!r} is not the JSON rendering of the error'
+                    else:
+                        want = {}
+                        if 'title' in exp: want['title'] = exp['title']
+                        if 'description' in exp and exp['description'] is not None: want['description'] = exp['description']
+                        if exp.get('code') is not None: want['code'] = exp['code']
+                        if exp.get('link') is not None: want['link'] = exp['link']
+                        got = {k: doc.get(k) for k in want}
+                        if got != want:
+                            what = f'body fields {got!r}; the arguments of this raise say {want!r}'
+                        elif 'title_prefix' in exp and not str(doc.get('title')).startswith(exp['title_prefix']):
+                            what = f'title {doc.get("title")!r}, expected the status line'
+                        elif 'description' in exp and exp['description'] is None and 'description' in doc:
+                            what = f'description {doc["description"]!r} in the body although this raise gave none'
+                        elif exp.get('code') is None and 'code' in doc:
+                            what = f'code {doc["code"]!r} in the body although this raise gave none'
+                        elif exp.get('link') is None and 'link' in doc:
+                            what = f'link {doc["link"]!r} in the body although this raise gave none'
+                elif what is None and 'text' in exp and r.body != (exp['text'] or '').encode('utf-8'):
+                    what = f'body {r.body[:80]!r}, expected the text {exp["text"]!r}'
+                elif what is None and not is_err and 'text' not in exp and r.body != b'':
+                    what = f'body {r.body[:80]!r} for a redirect'
+                ctx.oracle(name_resp, what is None, what, rcase)
+                # ---- correspondence: the model composes the response from the arguments of THIS call
+                if r.escaped is None and 'status_code' in exp:
+                    names = set(exp['headers'])
+                    eh_arg = ','.join(f'{_hx(k)}:{_hx(v)}' for k, v in exp['headers'].items()) or '-'
+                    if not exp['headers'] and not given.get('headers') and given.get('headers') != {} and not any(q in given for q in DERIVED_HEADER):
+                        eh_arg = 'none'
+                    sess.case(rcase)
+                    if not is_err:
+                        txt = exp.get('text')
+                        shown_h = sorted(f'{_hx(k.lower())}:{_hx(v)}' for k, v in r.headers if k.lower() in names)
+                        bk = ('notext' if txt is None else 'text') if r.body == (txt or '').encode('utf-8') else 'other-body'
+                        sess.op(f'cstatus {exp["status_code"]} - {eh_arg} {_flag(txt)}', f'status={r.status} body={bk} hdrs={",".join(shown_h) or "-"}')
+                    else:
+                        keys = list(app.resp_options.media_handlers)
+                        hs_arg = ','.join(f'{_hx(k)}:1' for k in keys) or '-'
+                        shown_h = sorted(f'{_hx(k.lower())}:{_hx(v)}' for k, v in r.headers if k.lower() in names | {'vary', 'content-type'})
+                        bk = 'json' if isinstance(_json_or_none(r.body), dict) and r.header('content-type') == [JSON] else 'other-body'
+                        sess.op(f'cerror {int(app.resp_options.xml_error_serialization)} {hs_arg} none {exp["status_code"]} - {eh_arg}',
+                                f'status={r.status} body={bk} hdrs={",".join(shown_h) or "-"}')
+                ctx.seen(('e', name, stack, site, case['call'], step), True)
+                ctx.count('e_class_' + ('redirect' if name in ('HTTPMovedPermanently', 'HTTPFound', 'HTTPSeeOther', 'HTTPTemporaryRedirect', 'HTTPPermanentRedirect') else
+                                        'HTTPStatus' if not is_err else 'HTTPError_itself' if name == 'HTTPError' else 'HTTPError_subclass'))
+                ctx.count(f'e_nth_instance_{min(step + 1, 4)}{"+" if step + 1 >= 4 else ""}')
+                ctx.count('e_call_' + variant + ('_headers_given' if 'headers' in given else '_headers_LEFT_OUT'))
+                ctx.count('e_site_' + site)
+                if step and 'headers' not in given and 'headers' not in (made[-2][0] if len(made) > 1 else 'headers'):
+                    ctx.count('e_two_consecutive_raises_of_the_class_without_headers_and_other_required_arguments')
+    # ---- a headers mapping OF THE APPLICATION handed to several constructions (a module-level constant reused for every error, say): each
+    # object reflects the arguments of its own call only, and the application's mapping is left as the application made it
+    # (found on the unchanged tree by this dimension - the constructors wrote Location / Allow / Retry-After / ... into the caller's dict -, repaired in /repo 085c52d, F49)
+    name_shared = ('a headers mapping of the application passed to several error / redirect constructions: every object carries the headers of its own call only '
+                   'and the mapping itself is left as the application made it')
+    for round_ in range(ctx.n(36, 400)):
+        order = [x for x in inv if 'headers' in [q for q, _, _ in x[2]]]
+        rnd.shuffle(order)
+        for name, cls, params, var_kw in order[:16 if ctx.quick else 47]:
+            own = rnd.choice([{'X-Api': '1'}, {}, {'X-Api': '1', 'X-Trace': 't'}])
+            shared = dict(own)
+            others = [x for x in order if x[0] != name]
+            seq = [(name, cls, params, var_kw)] * 2 + ([rnd.choice(others)] if others and rnd.random() < 0.6 else []) + [(name, cls, params, var_kw)]
+            rnd.shuffle(seq)
+            prev = {}
+            log_ = []
+            for n2, c2, p2, vk2 in seq:
+                given = _rep_values(rnd, n2, c2, p2, vk2, rnd.choice(['bare', 'random']), prev if n2 == name else {})
+                if given is None:
+                    continue
+                if 'headers' not in [q for q, _, _ in p2]:
+                    continue
+                given['headers'] = dict(own)               # what the expectation is computed from
+                prev = given
+                kw = dict(given, headers=shared)           # ... and the application passes its ONE dict every time
+                exp = _rep_expect(n2, c2, p2, given)
+                call = f'{n2}(' + ', '.join(f'{k}={v!r}' if k != 'headers' else 'headers=C' for k, v in kw.items()) + ')'
+                case = {'C': own, 'call': call, 'earlier_calls_with_the_same_dict_C': list(log_)}
+                try:
+                    with warnings.catch_warnings():
+                        warnings.simplefilter('ignore')
+                        e = c2(**kw)
+                    what = _rep_compare(exp, _rep_observe(e))
+                    if what is None and shared != own:
+                        what = f'the dict the application passed was changed by the constructor: {shared!r} (it was {own!r})'
+                except Exception as ex:  # noqa
+                    what = f'the constructor raised {ex!r}'
+                ctx.oracle(name_shared, what is None, what, case)
+                ctx.seen(('e-shared', call, tuple(log_)), True)
+                ctx.count('e_shared_headers_dict_' + ('redirect' if 'location' in given else 'error_with_derived_header' if any(q in given for q in DERIVED_HEADER) else 'plain'))
+                log_.append(call)
+    if skipped and ctx.shard[0] == 0:
+        ctx.notes.append(f'(e) classes with a required constructor argument the harness has no values for (not exercised): {sorted(skipped)}')
+    ctx.count(f'e_classes_in_the_inventory_{len(inv)}')
+    sess.finish()
+
 
 
 # ------------------------------------------------------------------ (d) the modelled functions called directly, exotic configurations
